@@ -6,6 +6,7 @@ import random
 from harness import projgen, tlc
 from harness import project as pj
 from harness.checks import scan_common as sc
+from harness.checks import wild_common as wc
 from harness.result import CheckResult
 
 ASSUMPTIONS = [
@@ -92,12 +93,15 @@ def run(ctx):
         for mp in order:
             ep.scan(mpath=mp)
         specs.append(ep.spec)
+    # real source trees found on this machine (harness/wild.py), abstracted independently of pytestarch
+    wspecs, wtrees = wc.specs(ctx, random.Random(ctx.seed * 7919 + 100), "C02")
+    specs += wspecs
     tr, episodes, fails = sc.run_and_validate(specs)
     st = sc.stats(episodes)
     used = {s for pl in placements for s in pl["pos"]}
     if used != set(slots) or not st["imports_observed"]:
         raise tlc.MachineryError(f"vacuous run: slots never used {set(slots) - used}; {st}")
-    cov = {"states": mc.distinct + pr.distinct + tr.states, "transitions": mc.generated + pr.generated + tr.transitions,
+    cov = {"real_source_trees": wtrees, "states": mc.distinct + pr.distinct + tr.states, "transitions": mc.generated + pr.generated + tr.transitions,
            "model_states": mc.distinct + pr.distinct, "traces_validated_against_impl": len(episodes),
            "trace_events": tr.events, "statement_list_slots": slots, "position_depth": depth,
            "placements_replayed": len(placements), "random_projects": n_rand, **st,
